@@ -16,34 +16,35 @@ import (
 )
 
 type BkmOp struct {
-	Kind   string             `json:"kind"` // set unset clear list info resolve
-	Name   string             `json:"name,omitempty"` // as typed ("" = omitted)
-	File   string             `json:"file,omitempty"` // relative to $ROOT
-	Create bool               `json:"create,omitempty"`
-	Force  bool               `json:"force,omitempty"`
-	Quiet  bool               `json:"quiet,omitempty"`
-	Yes    bool               `json:"yes,omitempty"`
-	Stdin  string             `json:"stdin,omitempty"`
-	Info   string             `json:"info,omitempty"` // "", dir, file
-	Plain  bool               `json:"plain,omitempty"`       // resolve: the argument is a RELATIVE FILE path spelled like the name (no @); cwd = $ROOT
-	Extra  string             `json:"extra,omitempty"`       // resolve: an additional plain file argument
-	ExtraFirst bool           `json:"extra_first,omitempty"` // ... placed before the bookmark argument
-	Alias  bool               `json:"alias,omitempty"`
-	Plan   verifsim.FaultPlan `json:"plan"`
-	Rot    string             `json:"rot_b64,omitempty"`    // bookmarks.json replaced by this before the command
-	RotSet bool               `json:"rot,omitempty"`
-	Remove string             `json:"remove,omitempty"` // a target file removed before the command
-	Cpus   int                `json:"cpus,omitempty"`
-	Tape   []int              `json:"tape,omitempty"`
-	MapTape []int             `json:"map_tape,omitempty"`
+	Kind       string             `json:"kind"`           // set unset clear list info resolve
+	Name       string             `json:"name,omitempty"` // as typed ("" = omitted)
+	File       string             `json:"file,omitempty"` // relative to $ROOT
+	Create     bool               `json:"create,omitempty"`
+	Force      bool               `json:"force,omitempty"`
+	Quiet      bool               `json:"quiet,omitempty"`
+	Yes        bool               `json:"yes,omitempty"`
+	Stdin      string             `json:"stdin,omitempty"`
+	Info       string             `json:"info,omitempty"`        // "", dir, file
+	RelFile    string             `json:"rel_file,omitempty"`    // set: the file is given relative to the working directory ($ROOT): rel | dot | dotdot
+	Plain      bool               `json:"plain,omitempty"`       // resolve: the argument is a RELATIVE FILE path spelled like the name (no @); cwd = $ROOT
+	Extra      string             `json:"extra,omitempty"`       // resolve: an additional plain file argument
+	ExtraFirst bool               `json:"extra_first,omitempty"` // ... placed before the bookmark argument
+	Alias      bool               `json:"alias,omitempty"`
+	Plan       verifsim.FaultPlan `json:"plan"`
+	Rot        string             `json:"rot_b64,omitempty"` // bookmarks.json replaced by this before the command
+	RotSet     bool               `json:"rot,omitempty"`
+	Remove     string             `json:"remove,omitempty"` // a target file removed before the command
+	Cpus       int                `json:"cpus,omitempty"`
+	Tape       []int              `json:"tape,omitempty"`
+	MapTape    []int              `json:"map_tape,omitempty"`
 }
 
 type BkmCase struct {
-	Files     map[string]string `json:"files"` // relative path -> content
-	NoCfgDir  bool              `json:"no_cfg_dir,omitempty"`
-	CfgVia    string            `json:"cfg_via,omitempty"` // how the config folder is found: "" = $KLOG_CONFIG_HOME, "xdg" = $XDG_CONFIG_HOME/klog, "home" = $HOME/.config/klog
-	BaseUnix  int64             `json:"base_unix"`
-	Ops       []BkmOp           `json:"ops"`
+	Files    map[string]string `json:"files"` // relative path -> content
+	NoCfgDir bool              `json:"no_cfg_dir,omitempty"`
+	CfgVia   string            `json:"cfg_via,omitempty"` // how the config folder is found: "" = $KLOG_CONFIG_HOME, "xdg" = $XDG_CONFIG_HOME/klog, "home" = $HOME/.config/klog
+	BaseUnix int64             `json:"base_unix"`
+	Ops      []BkmOp           `json:"ops"`
 }
 
 type bkmEngine struct{}
@@ -94,6 +95,9 @@ func (bkmEngine) generate(property string, seed int64, index int, tier string) *
 			op.Name = name
 			op.File = bkmFiles[r.Intn(len(bkmFiles))]
 			lastSet[normName(name)] = op.File
+			if r.Chance(1, 5) {
+				op.RelFile = r.Pick([]string{"rel", "dot", "dotdot"})
+			}
 			if strings.HasPrefix(op.File, "new") || op.File == "nodir/n.klg" {
 				op.Create = r.Chance(2, 3)
 			} else {
@@ -198,7 +202,16 @@ func (op *BkmOp) argv(root string) []string {
 		if op.Quiet {
 			a = append(a, "--quiet")
 		}
-		a = append(a, filepath.Join(root, op.File))
+		switch op.RelFile {
+		case "rel":
+			a = append(a, op.File)
+		case "dot":
+			a = append(a, "./"+op.File)
+		case "dotdot":
+			a = append(a, "sub dir/../"+op.File)
+		default:
+			a = append(a, filepath.Join(root, op.File))
+		}
 		if op.Name != "" {
 			a = append(a, op.Name)
 		}
